@@ -241,6 +241,9 @@ class Interp:
                 return m(self, *args, **kwargs)
         if isinstance(fn, type):
             return self.instantiate(fn, args, kwargs)
+        if type(fn).__name__ == 'partial' and type(fn).__module__ == 'functools' and not (deep_concrete(args) and deep_concrete(kwargs)):
+            # functools.partial(f, *a, **k)(*b, **l) == f(*a, *b, **{**k, **l})
+            return self.call(fn.func, list(fn.args) + args, {**fn.keywords, **kwargs}, node)
         if isinstance(fn, (types.FunctionType, types.MethodType)):
             if isinstance(fn, types.MethodType) and not getattr(fn.__func__, '__pyvc_native__', False):
                 target = fn.__func__
@@ -271,9 +274,35 @@ class Interp:
             name = fn.__name__
             if name == 'join':
                 return self.str_join(recv, args[0])
+            if name == 'format' and isinstance(recv, str):
+                return self.str_format(recv, args, kwargs)
             if hasattr(lifted, name):
                 return getattr(lifted, name)(*args, **kwargs)
         raise Unreached('call of %r with symbolic arguments has no model' % (fn,))
+
+    def str_format(self, fmt: str, args: List[Any], kwargs: Dict[str, Any]) -> Any:
+        """'...{}...{0}...{name}...'.format(*args, **kwargs) with plain replacement fields (no conversion, no format spec)."""
+        import string
+
+        out: Any = ''
+        auto = 0
+        for lit, field, spec, conv in string.Formatter().parse(fmt):
+            if lit:
+                out = self.binop(ast.Add(), out, lit)
+            if field is None:
+                continue
+            if spec or conv:
+                raise Unreached('str.format with a conversion or format spec on symbolic arguments')
+            if field == '':
+                val, auto = args[auto], auto + 1
+            elif field.isdigit():
+                val = args[int(field)]
+            elif field.isidentifier() and field in kwargs:
+                val = kwargs[field]
+            else:
+                raise Unreached('str.format replacement field %r with symbolic arguments' % field)
+            out = self.binop(ast.Add(), out, self.to_str(val))
+        return out
 
     def str_join(self, sep: Any, items: Any) -> Any:
         if isinstance(items, core.SList) and isinstance(sep, (str, bytes)) and len(sep) == 0:
@@ -301,6 +330,9 @@ class Interp:
             return ev
         if self.is_repo_module(getattr(cls, '__module__', '')):
             obj = Obj(cls)
+            new_hook = getattr(self.registry, 'obj_new_hook', None)
+            if new_hook is not None:
+                new_hook(self, obj)  # contracts attach ghost state to objects the subject creates
             init = self.class_attr(cls, '__init__')
             if init is not None and init[0] == 'function':
                 self.call(init[1], [obj] + args, kwargs)
